@@ -5,7 +5,13 @@ fn ctok(tag: char, v: f64) -> String {
     if tag == 'd' {
         format!("d{:016x}", v.to_bits())
     } else {
-        format!("s{:08x}", (v as f32).to_bits())
+        // a finite f64 that overflows binary32 is clamped: non-finite coordinates are only sent
+        // on purpose (mode `invalid`), never as an artefact of the conversion
+        let mut f = v as f32;
+        if v.is_finite() && f.is_infinite() {
+            f = if v > 0.0 { f32::MAX } else { f32::MIN };
+        }
+        format!("s{:08x}", f.to_bits())
     }
 }
 fn val(tag: char, bits: u64) -> f64 {
